@@ -80,6 +80,7 @@ def scenario(big: bool = False) -> Any:
         "stop": cm.times(60), "has_stop": st.booleans(),
         "park": st.sampled_from([False, False, False, True]),
         "clock_step": st.sampled_from([0, 0, 0, -30.0, -0.5, 3600.0]),
+        "neighbour": st.sampled_from([False, False, False, True]),       # a second, busy worker in the same process
         # what the broker's listen() does when its pending fetch gets cancelled at the stop: nothing, a clean-up round trip of 3 s / 20 s, or a failure
         "cancel_cleanup": st.sampled_from([None, None, None, 3.0, 20.0, "raise"]),
         "staggered": st.fixed_dictionaries({"on": st.sampled_from([False, False, False, True]), "k": st.integers(1, 3),
